@@ -1,5 +1,5 @@
 // ---- shared prelude of every generated Verus unit (DESIGN 3.3 / 3.4) ----
-#![allow(unused_imports, unused_variables, unused_mut, dead_code, unused_parens, unused_braces, unreachable_code, unused_assignments)]
+#![allow(non_snake_case, unused_imports, unused_variables, unused_mut, dead_code, unused_parens, unused_braces, unreachable_code, unused_assignments)]
 #![feature(allocator_api)]
 use vstd::prelude::*;
 use vstd::string::*;
@@ -400,4 +400,23 @@ pub open spec fn marker_ranges(m: Seq<(Range<usize>, Option<usize>)>) -> Seq<Ran
 pub open spec fn marker_ref_ranges(m: Seq<&(Range<usize>, Option<usize>)>) -> Seq<Range<usize>> {
     Seq::new(m.len(), |i: int| (*m[i]).0)
 }
+} // verus!
+verus! {
+pub assume_specification [String::as_bytes] (s: &String) -> (r: &[u8])
+    ensures r@ == encode_utf8(s@);
+pub assume_specification<T: ?Sized, A: std::alloc::Allocator> [<std::rc::Rc<T, A> as AsRef<T>>::as_ref] (s: &std::rc::Rc<T, A>) -> (r: &T)
+    ensures r == &**s;
+pub open spec fn next2f(b: Seq<u8>, p: int) -> Option<int> {
+    match next_lb(b, p, false) { Some(q1) => next_lb(b, q1 + 1, false), None => None }
+}
+pub open spec fn prev2f(b: Seq<u8>, p: int) -> Option<int> {
+    match prev_lb(b, p, false) { Some(q1) => prev_lb(b, q1, false), None => None }
+}
+} // verus!
+verus! {
+// unambiguous access to vstd's prophetic iterator model
+#[verifier::prophetic]
+pub open spec fn it_rem<I: Iterator>(it: I) -> Seq<I::Item> { IteratorSpec::remaining(&it) }
+#[verifier::prophetic]
+pub open spec fn it_ok<I: Iterator>(it: I) -> bool { IteratorSpec::obeys_prophetic_iter_laws(&it) && IteratorSpec::decrease(&it) is Some }
 } // verus!
